@@ -119,6 +119,91 @@ def r145_frame(ctx, res):
                           mutual, unit_ok, info[a][1], info[b][1]), construct="get_circle_point_list: frame orthonormality")
 
 
+def r146_rings_agree(ctx, res):
+    """caps and side faces share their vertices: in Cylinder / Cone every vertex ring obtained from
+    get_circle_point_list(...) for the side faces must be requested with the same centre, normal, radius and n as a
+    cap built by Circle(...) (which calls get_circle_point_list with its own arguments); the ring depends on the sign
+    of the normal (the frame is n x e, n x (n x e)), so `normal=-h` for the cap gives a reflected ring"""
+    import ast
+    from ..astutil import const_num, expand_locals, txt
+    from ..model import walk_local
+
+    gc = ctx.repo.fn("get_circle_point_list")
+    circ = ctx.repo.fn("ConvexPolygon.Circle")
+    gparams = list(gc.params)
+    cparams = list(circ.params[1:])  # without cls
+    n = 0
+    for short in ("ConvexPolyhedron.Cylinder", "ConvexPolyhedron.Cone"):
+        fi = ctx.repo.fn(short)
+
+        def norm_call(c, params, defaults_of):
+            vals = {}
+            for i, a in enumerate(c.args):
+                if i < len(params):
+                    vals[params[i]] = a
+            for k in c.keywords:
+                if k.arg is not None:
+                    vals[k.arg] = k.value
+            out = []
+            for p_ in ("center", "normal", "radius", "n"):
+                # parameter names of the two callees agree by position
+                idx = ["center", "normal", "radius", "n"].index(p_)
+                pname = params[idx] if idx < len(params) else p_
+                v = vals.get(pname)
+                if v is None:
+                    d = defaults_of.defaults
+                    first = len(defaults_of.params) - len(d)
+                    j = defaults_of.params.index(pname) - first if pname in defaults_of.params else -1
+                    out.append(txt(d[j]) if 0 <= j < len(d) else "?")
+                    continue
+                v = expand_locals(fi.node, v, fi.params)
+                if p_ == "normal":
+                    # a positive constant multiple of the normal gives the same ring (it is normalised)
+                    while isinstance(v, ast.BinOp) and isinstance(v.op, ast.Mult):
+                        kl, kr = const_num(v.left), const_num(v.right)
+                        if kl is not None and kl > 0:
+                            v = v.right
+                        elif kr is not None and kr > 0:
+                            v = v.left
+                        else:
+                            break
+                out.append(txt(v))
+            return tuple(out)
+
+        caps, rings = {}, {}
+        for c in walk_local(fi.node):
+            if not isinstance(c, ast.Call):
+                continue
+            name = c.func.id if isinstance(c.func, ast.Name) else (c.func.attr if isinstance(c.func, ast.Attribute) else None)
+            if name == "Circle":
+                caps[norm_call(c, cparams, circ)] = c
+            elif name == "get_circle_point_list":
+                rings[norm_call(c, gparams, gc)] = c
+        if not caps:
+            raise AnalysisError("%s: no Circle(...) cap found" % fi.where())
+        if not rings:
+            res.note("%s %s takes its side-face vertices from the caps themselves (no separate ring)" % (fi.where(), short))
+            continue
+        for key, c in sorted(rings.items()):
+            n += 1
+            ok = key in caps
+            res.ob("R14.6", fi.where(c), "%s: ring %s" % (short, key), ok,
+                   "the same ring is the vertex set of a cap built by Circle(center, normal, radius, n)" if ok else
+                   "no cap is built with these arguments; caps: %s" % sorted(caps))
+            if not ok:
+                res.violation("R14.6", fi, c, "%s builds its side faces on the ring get_circle_point_list%s but no cap Circle(...) is "
+                              "requested with the same centre, normal, radius and n (caps: %s): caps and side faces do not share "
+                              "their vertices, the surface is not closed" % (short, key, sorted(caps)),
+                              construct="%s: ring %s without matching cap" % (short, key))
+        for key, c in sorted(caps.items()):
+            if key not in rings:
+                n += 1
+                res.ob("R14.6", fi.where(c), "%s: cap %s" % (short, key), False, "no side-face ring with these arguments; rings: %s" % sorted(rings))
+                res.violation("R14.6", fi, c, "%s builds the cap Circle%s but the side faces use the ring(s) %s: the cap's vertices are "
+                              "not the side faces' vertices" % (short, key, sorted(rings)), construct="%s: cap %s without matching ring" % (short, key))
+    ctx.require(res, "R14.6", n, 3, "vertex rings of Cylinder / Cone")
+
+
 def run(ctx, res):
     res.explanation = (
         "Static decision of four structural clauses of C14: the seven builders (Parallelogram, Parallelepiped, Circle, "
@@ -155,6 +240,7 @@ def run(ctx, res):
     k = check_cross(ctx, res, ctx.repo.fn("get_circle_point_list"), "R14.2")
     ctx.require(res, "R14.2", k, 1, "normalised cross products in get_circle_point_list (one per reaching definition of the base axis)")
     r145_frame(ctx, res)
+    r146_rings_agree(ctx, res)
     # R14.3
     check_guard(ctx, res, GuardOb("get_circle_point_list", "n >= 3", "a circle with n < 3 must be rejected",
                                   inputs_any={"n"}, min_accept=3, subject="n"), rule="R14.3")
